@@ -25,11 +25,11 @@ STATIC = ["solve_reduce", "solve_noreduce", "solve_is_solution", "apply_both_sid
 PREAMBLE = vtree.TV_PREAMBLE + """
 Ltac v3_goal := cbv [mixed vsub vneg dot cross vadd vscale vzero Vec3.vx Vec3.vy Vec3.vz].
 Ltac nz_one :=
-  match goal with H : ?h <> 0 |- _ => apply H; v3_goal; first [ assumption | timeout 20 nsatz ] end.
+  match goal with H : ?h <> 0 |- _ => apply H; v3_goal; first [ assumption | timeout 20 (solve [nsatz]) ] end.
 Ltac nz_from P :=
   let Hd := fresh "Hd" in intro Hd;
   first [ nz_one
-        | let Hp := fresh "Hp" in assert (Hp : P = 0) by (v3_goal; timeout 30 nsatz);
+        | let Hp := fresh "Hp" in assert (Hp : P = 0) by (v3_goal; timeout 30 (solve [nsatz]));
           repeat match goal with
           | H : _ * _ = 0 |- _ => apply Rmult_integral in H; destruct H as [H|H]
           end; first [ contradiction | nz_one ] ].
@@ -153,7 +153,7 @@ def gen_case(rng, n, pos, quick):
 def solve_vector_cases(ctx):
     from symplyphysics.core.experimental.solvers import solve_for_vector  # pylint: disable=import-outside-toplevel
     rng = ctx.rng
-    per_shape = ctx.pick(6, 40)
+    per_shape = ctx.pick(14, 80)
     cases = []
     for n in range(1, 6):
         for pos in range(n):
@@ -162,6 +162,7 @@ def solve_vector_cases(ctx):
     lemmas, info = [], {}
     hist = {"solved": 0, "refused": 0}
     nontriv = set()
+    cap = Capped(ctx, 8)
     for ci, case in enumerate(cases):
         nv, ns, unknown = case["nv"], case["ns"], case["unknown"]
         o = vx.Objs(nv, ns)
@@ -187,7 +188,7 @@ def solve_vector_cases(ctx):
             net = sympy.expand(sum((vx.comps_of_recipe(k) for k in contributions(signed, unknown)), sympy.S.Zero))
             if isinstance(e, ValueError) and net == 0:
                 continue            # the terms of the unknown cancel: it is not a term of the expression, refusal is right
-            ctx.violation(f"C16:sfv:refused:{shown}", f"solve_for_vector refuses {shown} although {'abcdefgh'[unknown]} is a term: "
+            cap.violation(f"C16:sfv:refused:{shown}", f"solve_for_vector refuses {shown} although {'abcdefgh'[unknown]} is a term: "
                 f"{type(e).__name__}: {e}"[:300], {**base, "observed": f"{type(e).__name__}: {e}"[:300], "expected": "an equation"}, True)
             continue
         hist["solved"] += 1
@@ -200,7 +201,7 @@ def solve_vector_cases(ctx):
                 {**base, "kind": "broken-tie", "theorem_or_tie": "vx.coq_of_sympy", "observed": str(eq)}, False)
             continue
         base["observed"] = str(eq)
-        envs = [vtree.rand_env(rng, nv, ns) for _ in range(4)]
+        envs = [vtree.rand_env(rng, nv, ns, small=False) for _ in range(8)]
         cands = contributions(signed, unknown)
         subsets = [sum_recipe(list(s)) for k in range(1, len(cands) + 1) for s in itertools.combinations(cands, k)]
         dens = denominators(expr_r)
@@ -237,17 +238,18 @@ def solve_vector_cases(ctx):
                     break
             if chosen is None:
                 env, lv, rv, ev = ok_env[0] if ok_env else (None, None, None, None)
-                ctx.violation(f"C16:sfv:{shown}", f"solve_for_vector({shown}) returns {eq}: its sides do not differ by the expression divided "
+                cap.violation(f"C16:sfv:{shown}", f"solve_for_vector({shown}) returns {eq}: its sides do not differ by the expression divided "
                     f"by a coefficient of the unknown", {**base, "env": env.to_json() if env else None,
                     "lhs_minus_rhs": vx.show_value(vx.v_add(lv, vx.v_scale(Fraction(-1), rv))) if env else None,
                     "expr": vx.show_value(ev) if env else None,
                     "coefficients": [str(vx.eval_recipe(K, env)) for K in subsets] if env else None,
+                    "coefficient_recipes": subsets,
                     "expected": "lhs - rhs = expr / k for a coefficient k of the unknown"}, True)
                 continue
             Kc = vx.coq_of_recipe(chosen)
             prod = " * ".join([f"({Kc})"] + [f"({vx.coq_of_recipe(d)})" for d in dens])
             stmt = (f"forall {bind}, {Kc} <> 0 -> {hyps}vsub {lhs_c} {rhs_c} = vscale (/ {Kc}) {vx.coq_of_recipe(expr_r)}")
-            proof = f"intros. rewrite ?norm_sq. timeout 120 (apply v3_eq; v3_goal; (field; side ({prod})))."
+            proof = f"intros. {destruct_vectors(nv)} rewrite ?norm_sq. timeout 120 (apply v3_eq; v3_goal; (field; side ({unfold_vectors(prod)})))."
             base["coefficient"] = vx.show_recipe(chosen)
         else:
             bad = None
@@ -257,13 +259,13 @@ def solve_vector_cases(ctx):
                     break
             if bad:
                 env, lv, rv, ev = bad
-                ctx.violation(f"C16:sfv:{shown}", f"solve_for_vector({shown}) returns {eq}: rhs - lhs is not the expression",
+                cap.violation(f"C16:sfv:{shown}", f"solve_for_vector({shown}) returns {eq}: rhs - lhs is not the expression",
                     {**base, "env": env.to_json(), "rhs_minus_lhs": vx.show_value(vx.v_add(rv, vx.v_scale(Fraction(-1), lv))),
                      "expr": vx.show_value(ev), "expected": "rhs - lhs = expr"}, True)
                 continue
             prod = " * ".join([f"({vx.coq_of_recipe(d)})" for d in dens]) or "1"
             stmt = f"forall {bind}, {hyps}vsub {rhs_c} {lhs_c} = {vx.coq_of_recipe(expr_r)}"
-            proof = (f"intros. rewrite ?norm_sq. timeout 120 (apply v3_eq; v3_goal; first [ ring | (field; side ({prod})) ]).")
+            proof = (f"intros. {destruct_vectors(nv)} rewrite ?norm_sq. timeout 120 (apply v3_eq; v3_goal; first [ ring | (field; side ({unfold_vectors(prod)})) ]).")
         # "whenever the vector occurs in no other term the right-hand side is its solution": then rhs must not mention it
         if case["reduce"] and len(cands) == 1 and not mentions(signed, unknown, skip_term_of=unknown):
             if eq.lhs != o.vecs[unknown] or eq.rhs.has(o.vecs[unknown]):
@@ -272,6 +274,7 @@ def solve_vector_cases(ctx):
         name = f"sfv_{ci}"
         lemmas.append(coqrun.Lemma(name, stmt, proof, shown))
         info[name] = base
+    (ctx.build / "sfv_lemmas.txt").write_text("\n".join(f"Lemma {l.name} : {l.statement}.\nProof.\n{l.proof}\nQed.\n" for l in lemmas))
     res = coqrun.prove_lemmas(ctx, "sfv", PREAMBLE, lemmas, per_file=ctx.pick(8, 20), timeout=900) if lemmas else {}
     ok = sum(v == "ok" for v in res.values())
     ctx.obligations(len(lemmas), ok)
@@ -282,12 +285,36 @@ def solve_vector_cases(ctx):
                 {**b, "kind": "broken-proof", "theorem_or_tie": f"generated lemma {name}", "coq_error": st[-400:]}, False)
     ctx.evaluated(len(cases), len(nontriv))
     ctx.coverage["solve_for_vector"] = {"cases": len(cases), "lemmas": len(lemmas), "proved": ok, **hist,
+        "failing_cases_reported": cap.n, "failing_cases_not_reported_individually": cap.suppressed,
         "shapes": "n = 1..5 terms x every position of the unknown; coefficients: symbol, integer, -1, sum, product, integer*symbol, "
                   "dot product, 1/symbol; vectors: symbols, cross products, sums containing the unknown again; Eq and plain forms; "
                   "reduce_factor on/off"}
     if lemmas:
         ctx.sample({"stream": "solve_for_vector", "case": info[lemmas[0].name]["case"], "returned": info[lemmas[0].name]["observed"],
             "lemma": lemmas[0].statement[:300]})
+
+
+def destruct_vectors(nv):
+    return " ".join(f"destruct v{i} as [v{i}x v{i}y v{i}z]." for i in range(nv))
+
+
+def unfold_vectors(text):
+    import re  # pylint: disable=import-outside-toplevel
+    return re.sub(r"\bv(\d)\b", r"(mkV v\1x v\1y v\1z)", text)
+
+
+class Capped:
+    """at most `limit` individually reported failing cases per stream (the rest is counted)"""
+
+    def __init__(self, ctx, limit):
+        self.ctx, self.limit, self.n, self.suppressed = ctx, limit, 0, 0
+
+    def violation(self, *a, **k):
+        if self.n >= self.limit:
+            self.suppressed += 1
+            return
+        self.n += 1
+        self.ctx.violation(*a, **k)
 
 
 def mentions(signed, unknown, skip_term_of=None):
@@ -336,6 +363,10 @@ def refusal_cases(ctx):
             except Exception as e:  # pylint: disable=broad-except
                 got = qx.err_class(e)
                 msg = f"{type(e).__name__}: {e}"[:200]
+            if got != want and got is not None and want is not None:
+                # refused as the property requires, with another exception class than the docstring's: noted only
+                ctx.coverage.setdefault("refusal_class_differs", []).append(f"{arg} for {unk}: {msg}")
+                continue
             if got != want:
                 ctx.violation(f"C16:refusal:{arg}:{unk}:{red}", f"solve_for_vector({arg}, {unk}, reduce_factor={red}) [{why}]: outcome "
                     f"{msg or 'an equation'}, the model gives {'an equation' if want is None else ('TypeError' if want == E_TYPE else 'ValueError')}",
@@ -380,7 +411,7 @@ def solve_scalar_cases(ctx):
     rng = ctx.rng
     lemmas, info = [], {}
     n = 0
-    for rep in range(ctx.pick(2, 10)):
+    for rep in range(ctx.pick(3, 12)):
         for name, eqs, unknowns, hyps, prod in scalar_templates(rng):
             n += 1
             nv, ns = 2, 5
@@ -445,7 +476,7 @@ def solve_scalar_cases(ctx):
                     for si, sq in enumerate(sqrts):
                         steps.append(f"assert (Hq{si} : sqrt ({sq}) * sqrt ({sq}) = {sq}) by (apply sqrt_sqrt; nra).")
                         steps.append(f"set (q{si} := sqrt ({sq})) in *. clearbody q{si}.")
-                    steps.append("timeout 60 nsatz.")
+                    steps.append("timeout 60 (solve [nsatz]).")
                     proof = "\n".join(steps)
                 else:
                     proof = f"intros. cbv beta. v3_goal. timeout 60 (first [ ring | (field; side ({prod})) ])."
@@ -582,10 +613,16 @@ def replay(ctx, rep):
             lv, rv = vx.eval_sympy(eq.lhs, c, env, "v"), vx.eval_sympy(eq.rhs, c, env, "v")
             ev = vx.eval_recipe(expr_r, env)
             print("at      :", rep["env"])
-            print("lhs-rhs :", vx.show_value(vx.v_add(lv, vx.v_scale(Fraction(-1), rv))), "  expr:", vx.show_value(ev),
-                "  coefficients of the unknown:", rep.get("coefficients"))
-            print("REPRODUCED (neither lhs - rhs = expr / k nor rhs - lhs = expr)")
-            return 1
+            d = vx.v_add(lv, vx.v_scale(Fraction(-1), rv))
+            print("lhs-rhs :", vx.show_value(d), "  expr:", vx.show_value(ev))
+            if rep["reduce"]:
+                ks = [vx.eval_recipe(vtree.totuple(K), env) for K in rep.get("coefficient_recipes") or []]
+                print("coefficients of the unknown:", [str(k) for k in ks])
+                holds = any(k != 0 and vx.close(d, vx.v_scale(1 / k, ev)) for k in ks)
+            else:
+                holds = vx.close(vx.v_scale(Fraction(-1), d), ev)
+            print("property holds on this input" if holds else "REPRODUCED: the sides do not differ by expr / k (resp. by expr)")
+            return 0 if holds else 1
         return 0
     print(json.dumps({k: rep.get(k) for k in ("key", "what", "kind", "observed", "expected", "theorem_or_tie", "coq_error")}, indent=1))
     return 0
